@@ -159,7 +159,9 @@ def solve (E : Env K) (rhs : Array K) (dimension : Nat) : Array K :=
 def effTol (tol : K) : K :=
   if tol ≤ 0 then Scalar.sqrt (1 / Scalar.ofNat (2 ^ 52)) else tol
 
-/-- one pass of `for (row=2; row<=dim_; row++)` -/
+/-- one pass of the row loop of `Envelope::cholDec` — `for (row=1; row<=dim_; row++)` in the current tree
+    (the start row is regenerated into `Gen.cholFirstRow`; row 1 has no off-diagonal cell, only its
+    pivot is tested) -/
 def cholRow (tol : K) (E : Env K) (row : Nat) : Env K :=
   let b := E.rowBegin row
   let w := E.width row
